@@ -56,7 +56,8 @@ def attribute(prop, scen, rej):
         return {fam}       # single-property families with their own trace specification
     evn = rej['event'].get('ev')
     if evn == 'Leak':       # goroutines left behind after the connection was torn down
-        return {'C10', 'C14'} | ({fam} if fam in ('C17', 'C18', 'C19') else set())
+        return {'C10', 'C14'} | ({fam} if fam in ('C17', 'C18', 'C19') else set()) | \
+            ({'C12'} if scen.get('rawcli') else set()) | ({'C13'} if scen.get('rawsrv') else set())   # ... by a peer's envelopes
     if evn == 'Wedged':     # a real lock deadlock: nothing on the connection completes any more
         return {ofam, 'C11'}
     if evn == 'Crash':
